@@ -184,7 +184,7 @@ def r3_shape(ck, cx):
 
 def run(ck, tier):
     cx = Ctx()
-    r1_r2(ck, cx)
-    r3_shape(ck, cx)
+    ck.guard(r1_r2, ck, cx)
+    ck.guard(r3_shape, ck, cx)
     ck.assume('which corruptions CRC-16 / LRC detect is the mathematics of the codes and is not decided; nor is the arithmetic inside computeCRC/computeLRC beyond the constants')
     return cx.idx
